@@ -293,6 +293,102 @@ def select_fns(kind):
     _, chk_f, byf, feats, dss = dataset_fns()
     return [sel, chk, dss, byf, chk_f, feats]
 
+GEN_H = 'specs/C08/gen.h'
+GENERATOR_TU = 'src/generator.cpp'
+
+GEN_SETUP = r'''
+  struct nv_generator gen; struct nv_ds ds; int64_t f; int64_t g;
+  __CPROVER_assume(0 <= ds.samples && ds.samples <= NV_MAXN);
+  gen.m_datasource = &ds;
+  __CPROVER_assume(0 <= gen.m_feature_infos.n && gen.m_feature_infos.n <= NV_MAXN);
+  gen.m_feature_infos.p = malloc(gen.m_feature_infos.n);
+  gen.m_feature_shuffles.n = gen.m_feature_infos.n;
+  gen.m_feature_shuffles.has = malloc(gen.m_feature_shuffles.n);
+  gen.m_feature_shuffles.kv = malloc(gen.m_feature_shuffles.n * sizeof(struct nv_kv));
+  __CPROVER_assume(gen.m_feature_infos.p != NULL && gen.m_feature_shuffles.has != NULL && gen.m_feature_shuffles.kv != NULL);
+  __CPROVER_assume(0 <= f && f < gen.m_feature_infos.n && 0 <= g && g < gen.m_feature_infos.n);
+  __CPROVER_assume(NV_GEN_INV(&gen, f) && NV_GEN_INV(&gen, g));        /* any reachable state */
+  nv_thrown = 0;
+  _Bool dropped_g = gen_should_drop(&gen, g);
+  struct nv_idx shuf_g = gen_shuffled(&gen, g);
+'''
+GEN_SAME_SHUF = '(now.n == shuf_g.n && (now.n == 0 || (now.id == shuf_g.id && (now.perm != 0) == (shuf_g.perm != 0))))'
+GEN_HARNESS = {
+    'drop': r'''
+  gen_drop(&gen, f);
+  __CPROVER_assert(gen_should_drop(&gen, f), "drop(f): f is dropped (its views become missing)");
+  struct nv_idx now = gen_shuffled(&gen, g);
+  __CPROVER_assert(g == f || gen_should_drop(&gen, g) == dropped_g, "drop(f): the dropped flag of every other feature is unchanged");
+  __CPROVER_assert(g == f || SAME_SHUF, "drop(f): the permutation of every other feature is unchanged");
+''',
+    'shuffle': r'''
+  gen_shuffle(&gen, f);
+  struct nv_idx mine = gen_shuffled(&gen, f);
+  __CPROVER_assert(!nv_thrown, "shuffle(f): does not throw on a fitted generator");
+  __CPROVER_assert(mine.n == ds.samples && mine.perm, "shuffle(f): the reported bijection of f is a permutation of all samples");
+  __CPROVER_assert(!gen_should_drop(&gen, f), "shuffle(f): f is visible (not dropped)");
+  struct nv_idx now = gen_shuffled(&gen, g);
+  __CPROVER_assert(g == f || gen_should_drop(&gen, g) == dropped_g, "shuffle(f): the dropped flag of every other feature is unchanged");
+  __CPROVER_assert(g == f || SAME_SHUF, "shuffle(f): the permutation of every other feature is unchanged");
+''',
+    'undrop': r'''
+  gen_undrop(&gen);
+  struct nv_idx now = gen_shuffled(&gen, g);
+  __CPROVER_assert(!gen_should_drop(&gen, g), "undrop(): no feature is dropped");
+  __CPROVER_assert(now.n == 0 || SAME_SHUF, "undrop(): the permutation of every feature is unchanged or gone");
+''',
+    'unshuffle': r'''
+  gen_unshuffle(&gen);
+  struct nv_idx now = gen_shuffled(&gen, g);
+  __CPROVER_assert(now.n == 0, "unshuffle(): no feature is shuffled");
+  __CPROVER_assert(!gen_should_drop(&gen, g) || dropped_g, "unshuffle(): the dropped flag of every feature is unchanged or cleared");
+'''}
+
+
+def gen_harness(op):
+    body = GEN_HARNESS[op].replace('SAME_SHUF', GEN_SAME_SHUF)
+    return ('int main(void)\n{' + GEN_SETUP + body +
+            '  __CPROVER_assert(NV_GEN_INV(&gen, f) && NV_GEN_INV(&gen, g), "' + op + ': the representation invariant (flag byte is 0 / 1 / 2, a flag 2 owns a permutation of all samples) is re-established");\n'
+            '  __CPROVER_assert(0, "nv_canary: end of harness reachable");\n  return 0;\n}\n')
+
+
+def gen_fns(names):
+    umap = r'std::unordered_map<long, nano::tensor_t<nano::tensor_vector_storage_t, long, 1>>'
+    types = [(r'^nano::generator_t$', 'struct nv_generator'), (r'^nano::datasource_t$', 'struct nv_ds'),
+             (r'^nano::rng_t$|^std::linear_congruential_engine<', 'struct nv_rng'),
+             (r'^nano::indices_c?map_t$|^nano::indices_t$|tensor_t<nano::tensor_(vector|carray)_storage_t, long, 1>$', 'struct nv_idx'),
+             (r'const_iterator$|^std::__detail::_Node_const_iterator<', 'struct nv_shufit'),
+             (r'^nano::(scalar|sclass|mclass|struct)_map_t$|tensor_t<nano::tensor_marray_storage_t, (double|int|signed char), \d>$', 'struct nv_store'),
+             (r'tensor_t<nano::tensor_vector_storage_t, unsigned char, 1>$|feature_infos_t$', 'struct nv_mask')]
+    common = dict(self_struct='struct nv_generator', types=types, uf_float=False,
+                  calls=[(r'^operator\(\)\|typename tbase::t(const|mutable)ref \(const nano::tensor_size_t\)', '{0}.p[{1}]'),
+                         (r'^operator=\|Eigen::ArrayWrapper<Eigen::Map<Eigen::Matrix<unsigned char, -1, 1, 0>, 0>> &\(const .*Scalar &\)', 'nv_mask_fill({0}, {&1})'),
+                         (r'^make_rng\|', 'nv_make_rng()'), (r'^arange\|', 'nv_arange({0}, {1})'),
+                         (r'^(begin|end)\|auto \(nano::tensor_t<nano::tensor_vector_storage_t, long, 1> &\)', '{&0}'),
+                         (r'^shuffle\|void \(long \*, long \*, std::linear_congruential_engine', 'nv_std_shuffle({0}, {1})'),
+                         (r'^operator\[\]\|' + umap.replace('<', '<').replace('(', '\\(') + r'::mapped_type &', '(*nv_shufmap_at({&0}, {1}))'),
+                         (r'^operator=\|nano::tensor_t<nano::tensor_vector_storage_t, long, 1> &\(const nano::tensor_t<nano::tensor_vector_storage_t, long, 1> &\)', '({0} = {1})'),
+                         (r'^operator->\|std::__detail::_Node_const_iterator<.*::pointer \(\) const', 'nv_shufit_deref({&0})'),
+                         (r'^ctor\|nano::tensor_t<nano::tensor_carray_storage_t, long, 1>\|void \(const ', '{0}')],
+                  members=[(r'^array\|nano::tensor_t<nano::tensor_vector_storage_t, unsigned char, 1>', '{self}'),
+                           (r'^clear\|std::unordered_map<long,', 'nv_shufmap_clear'),
+                           (r'^find\|std::unordered_map<long,', 'nv_shufmap_find({self}, {0})'),
+                           (r'^datasource\|nano::generator_t', '(*nv_gen_datasource({self}))!'),
+                           (r'^samples\|nano::datasource_t', '{*self}.samples'),
+                           (r'^should_drop\|nano::generator_t', 'gen_should_drop'),
+                           (r'^full\|nano::tensor_t<nano::tensor_marray_storage_t, double, \d>', 'nv_store_full_d'),
+                           (r'^full\|nano::tensor_t<nano::tensor_marray_storage_t, (int|signed char), \d>', 'nv_store_full_i'),
+                           (r'^do_select\|nano::generator_t', 'nv_do_select')])
+    flt = 'nano::generator_t::'
+    table = {
+        'drop': ('drop', None), 'undrop': ('undrop', None), 'shuffle': ('shuffle', None), 'unshuffle': ('unshuffle', None),
+        'should_drop': ('should_drop', None),
+        'shuffled': ('shuffled', lambda d: len(astload.param_types(d)) == 1),
+    }
+    for kind in ('scalar', 'sclass', 'mclass', 'struct'):
+        table['select_' + kind] = ('select', (lambda k: lambda d: astload.param_types(d)[-1] == f'nano::{k}_map_t')(kind))
+    return [Fn('gen_' + n, GENERATOR_TU, table[n][0], flt=flt, select=table[n][1], **common) for n in names]
+
 
 def build(tier):
     targets = []
@@ -321,6 +417,11 @@ def build(tier):
     _, g5, _ = mask_fns()
     targets.append(Target('dataset_guarded_read', [chk_s, dss, g5] + list(iter_fns()), DS_H, enforce_none=True, harness=GUARDED_READ))
     targets.append(Target('flatten_sclass_u8', flatten_fns(), FLAT_H))
+    for op in ('drop', 'shuffle', 'undrop', 'unshuffle'):
+        targets.append(Target('gen_' + op, gen_fns([op, 'should_drop', 'shuffled']), GEN_H, enforce_none=True, harness=gen_harness(op)))
+    targets.append(Target('gen_should_drop', gen_fns(['should_drop']), GEN_H))
+    for kind in ('scalar', 'sclass', 'mclass', 'struct'):
+        targets.append(Target('gen_select_' + kind, gen_fns(['select_' + kind, 'should_drop']), GEN_H))
     for kind in ('sclass', 'mclass', 'scalar', 'struct'):
         targets.append(Target('dataset_select_' + kind, select_fns(kind), SEL_H, replace=['dataset_byfeature']))
     return {
